@@ -102,7 +102,7 @@ func c09() {
 		{Thread: 2, Op: "load", Flags: flagTSync, NNP: false, Policy: "valid4"}}})
 	nCat := len(plans)
 	// PRNG histories
-	nRandom := run.N(40, 3000)
+	nRandom := run.N(240, 8000)
 	for i := 0; i < nRandom; i++ {
 		r := caseRand(run, i)
 		pl := c09Plan{threads: 2 + r.Intn(4), unprivileged: r.Intn(3) == 0}
@@ -209,7 +209,7 @@ func c09() {
 			replay["call_record"] = l
 			changed := func(keys ...string) string {
 				for t2 := range before {
-					if _, ok := after[t2]; !ok {
+					if _, ok := after[t2]; !ok || get(after, t2, "Exiting") == "1" {
 						continue
 					}
 					for _, k := range keys {
@@ -274,6 +274,9 @@ func c09() {
 					}
 					if call.Flags&flagTSync != 0 {
 						for t2 := range after {
+							if get(after, t2, "Exiting") == "1" {
+								continue // skipped by the kernel's thread-sync, never runs user code again
+							}
 							if get(after, t2, "Seccomp_filters") != af || get(after, t2, "Seccomp") != "2" {
 								run.Violation("nil-tsync-but-thread-unsynced", what+fmt.Sprintf(": nil with thread-sync, but thread %s has %s filters, the caller %s", t2, get(after, t2, "Seccomp_filters"), af), replay)
 								return
